@@ -2,7 +2,7 @@
    code from the property, non-vacuity examples for the hypotheses used in Props/C04.v, and an
    example of a stale result with is_bipartitions_updated = True *)
 From Coq Require Import ZArith List Bool Lia Permutation Relations.
-From DV Require Import Model.PyPrims Model.Tree Model.C04Model Proofs.C04Lists Proofs.C04Loops Proofs.C04Core.
+From DV Require Import Model.PyPrims Model.Tree Model.C04Model Model.C04Spec Proofs.C04Lists Proofs.C04Loops Proofs.C04Core.
 Import ListNotations.
 Open Scope Z_scope.
 
@@ -40,7 +40,7 @@ Proof. apply rt_step. apply R_here. apply perm_swap. Qed.
 
 Lemma zero_on_redrawing_refuted_l : forall mg p,
   exists acc r t t',
-    redraw t t' /\ well_formed acc (t, r) = true /\ well_formed acc (t', r) = true /\
+    redraw t t' /\ proper acc (t, r) = true /\ proper acc (t', r) = true /\ collides mg (t, r) = true /\
     rf mg acc (t, r) (t', r) = Ok 0 /\ wrf mg p acc (t, r) (t', r) = Ok 3072 /\ euclid_sq mg p acc (t, r) (t', r) = Ok 9437184.
 Proof.
   intros mg p. exists acc4, (Some false), w_uni, w_uni'. split; [apply redraw_swap|].
